@@ -6,6 +6,7 @@ from vt.gens import strings as S
 
 DIALECTS = ['perl', 'portable', 'grep']
 FORMS = ['list', 'dict', 'series', 'serieslist']
+SERIES_FORMS = ('series', 'serieslist', 'catseries')
 EXTRAS = [None, None, None, '_', '-', '.', '_-', '_.-', '.-']
 
 
@@ -16,6 +17,9 @@ def gen_case(rng, i=None, pruning=False, allow_none=True):
         alph = S.ALL
         pools = ['all']
     xs = S.multiset(rng, alph=alph)
+    if rng.random() < 0.06:
+        xs = S.lookalikes(rng)
+        pools = ['lookalike']
     odd = rng.random() < 0.08
     if odd:
         # "odd one out": many strings of one class plus one or two look-alikes of a neighbouring class
@@ -35,7 +39,7 @@ def gen_case(rng, i=None, pruning=False, allow_none=True):
         sampled = (i // 12) % 2 == 1
     else:
         dialect = rng.choice(DIALECTS)
-        form = rng.choice(['list', 'list', 'dict', 'series', 'serieslist'])
+        form = rng.choice(['list', 'list', 'list', 'dict', 'dict', 'series', 'serieslist', 'catseries'])
         sampled = rng.random() < 0.45 or odd
     kw = dict(tag=rng.random() < 0.3, strip=rng.random() < 0.2, remove_empties=rng.random() < 0.3,
               extra_letters=rng.choice(EXTRAS), variableLengthFrags=rng.random() < 0.3, dialect=dialect)
@@ -64,7 +68,7 @@ def gen_case(rng, i=None, pruning=False, allow_none=True):
             kw['max_patterns'] = rng.choice([1, 2, 3])
         if rng.random() < 0.6:
             kw['min_strings_per_pattern'] = rng.choice([1, 2, 3])
-    if form in ('series', 'serieslist'):
+    if form in SERIES_FORMS:
         # pdextract takes only a seed; options are not expressible
         kw = dict(tag=False, strip=False, remove_empties=False, extra_letters=None,
                   variableLengthFrags=False, dialect='portable')
@@ -109,6 +113,15 @@ def build_input(case, order=None):
     vals = [np.nan if x is None else x for x in xs]
     if form == 'series':
         return pd.Series(vals, dtype=object)
+    if form == 'catseries':
+        # categorical column whose dtype also declares categories no row holds (as after filtering a frame):
+        # the examples are the values present
+        present = []
+        for x in xs:
+            if x is not None and x not in present:
+                present.append(x)
+        extra = [e for e in ('UNUSED-77/x', 'zz 9', '~') if e not in present]
+        return pd.Series(pd.Categorical(vals, categories=present + extra))
     h = len(vals) // 2
     return [pd.Series(vals[:h], dtype=object), pd.Series(vals[h:], dtype=object)]
 
@@ -134,7 +147,7 @@ def run_extractor(case, inp=None, **over):
     kw.update(over)
     buf = io.StringIO()
     with contextlib.redirect_stdout(buf):
-        if case['form'] in ('series', 'serieslist'):
+        if case['form'] in SERIES_FORMS:
             return rexpy.pdextract(inp, seed=case['seed'])
         return rexpy.Extractor(inp, size=make_size(case), seed=case['seed'], **kw)
 
